@@ -16,7 +16,7 @@ from ..runner import Acc, my_share
 LEVEL = "model_checking"
 MOD = "mc.props.C20"
 
-KEYS = ["a", "b", "c"]
+KEYS = ["a", "flux", "p_x"]  # keys that end in x or _x are ordinary keys (no component suffix is to be stripped)
 
 # value kinds: (ctor name, shape, description); fresh object per use
 KINDS = ["A3m", "A3s_i8", "V3_3", "A2m", "S0", "A1m", "V2_3"]
